@@ -1117,7 +1117,7 @@ var ruleSnapshot = &core.Rule{ID: "R06.6", Min: 6,
 					if name, _ := m.muCall(in); name != "" {
 						continue // a deferred unlock is registered here, it does not run here
 					}
-					if ci, ok := in.(ssa.CallInstruction); ok && !core.IsBuiltin(ci.Common(), "append") && !core.IsBuiltin(ci.Common(), "len") && !core.IsBuiltin(ci.Common(), "copy") {
+					if ci, ok := in.(ssa.CallInstruction); ok && !core.IsBuiltin(ci.Common(), "append") && !core.IsBuiltin(ci.Common(), "len") && !core.IsBuiltin(ci.Common(), "copy") && !isStdGeneric(ci.Common(), "slices.Concat") && !isStdGeneric(ci.Common(), "slices.Insert") && !isStdGeneric(ci.Common(), "slices.Clone") {
 						s.Bad(fmt.Sprintf("%s: call inside the write region", core.FName(f)), c.Pos(in.Pos()), "call while holding the write lock (unbounded blocking of all detections, possible re-entry)")
 					}
 				}
